@@ -121,6 +121,7 @@ func main() {
 	var handlerLog []error
 	zerolog.ErrorHandler = func(err error) { handlerLog = append(handlerLog, err) }
 
+	composition := ""
 	run := func(sh shape, lv []zerolog.Level, direct bool) {
 		D, E := len(sh), len(lv)
 		n := 1
@@ -178,9 +179,20 @@ func main() {
 				}
 			}
 			var lg zerolog.Logger
-			if direct {
+			switch {
+			case direct:
 				lg = zerolog.New(ws[0])
-			} else {
+			case composition == "sync(multi)":
+				lg = zerolog.New(zerolog.SyncWriter(zerolog.MultiLevelWriter(ws...)))
+			case composition == "multi(sync)":
+				var wrapped []io.Writer
+				for _, w := range ws {
+					wrapped = append(wrapped, zerolog.SyncWriter(w))
+				}
+				lg = zerolog.New(zerolog.MultiLevelWriter(wrapped...))
+			case composition == "multi(multi)" && len(ws) >= 2:
+				lg = zerolog.New(zerolog.MultiLevelWriter(zerolog.MultiLevelWriter(ws[:1]...), zerolog.MultiLevelWriter(ws[1:]...)))
+			default:
 				lg = zerolog.New(zerolog.MultiLevelWriter(ws...))
 			}
 			handlerLog = handlerLog[:0]
@@ -266,6 +278,9 @@ func main() {
 			if direct {
 				mode = "direct"
 			}
+			if composition != "" && !direct {
+				mode = composition
+			}
 			r.Eval(fmt.Sprint(mode, sh, lv, out, lg2.String(), len(handlerLog)), faults > 0)
 			if len(fails) > 0 {
 				r.Violation("", fmt.Sprint(mode, sh, fails[0][:min(len(fails[0]), 40)]), fmt.Sprintf("%s shape=%v levels=%v outcomes(dest x event; 0 ok,1 error,2 short)=%v: %s", mode, sh, lv, out, strings.Join(fails, "; ")),
@@ -315,6 +330,17 @@ func main() {
 			}
 		}
 	}
+	for _, comp := range []string{"sync(multi)", "multi(sync)", "multi(multi)"} {
+		composition = comp
+		for _, sh := range shapes2 {
+			for E := 1; E <= 2; E++ {
+				for _, lv := range levelVecs(E, true) {
+					run(sh, lv, false)
+				}
+			}
+		}
+	}
+	composition = ""
 	for _, sh := range shapes3 {
 		for _, lv := range levelVecs(2, true) {
 			run(sh, lv, false)
